@@ -170,7 +170,13 @@ def signature_shapes(chk, ureg):
             ("=A*B**2", ("=A", "=B"), (Q(F(6), "m"), Q(F(2), "s")), (F(6), F(2)), {"m": 1, "s": 2}),
             ("=A**2*B", ("=A", "=B"), (Q(F(6), "cm"), Q(F(2), "s")), (F(6), F(2)), {"cm": 2, "s": 1}),
             (None, ("=A", "=B", "=A/B"), (Q(F(6), "m"), Q(F(2), "s"), Q(F(300), "cm / s")), (F(6), F(2), F(3)), None),
-            (None, ("=A", "=B", "=A*B**2"), (Q(F(6), "m"), Q(F(2), "s"), Q(F(5), "m * s ** 2")), (F(6), F(2), F(5)), None)):
+            (None, ("=A", "=B", "=A*B**2"), (Q(F(6), "m"), Q(F(2), "s"), Q(F(5), "m * s ** 2")), (F(6), F(2), F(5)), None),
+            # a reference is resolved by *name*: the same relations and the same argument units with the names bound the other
+            # way round denote other units (asked after their siblings above, so that anything remembered per relation shows)
+            ("=A/B", ("=B", "=A"), (Q(F(6), "m"), Q(F(2), "s")), (F(6), F(2)), {"s": 1, "m": -1}),
+            ("=A*B**2", ("=B", "=A"), (Q(F(6), "m"), Q(F(2), "s")), (F(6), F(2)), {"s": 1, "m": 2}),
+            (None, ("=B", "=A", "=A/B"), (Q(F(6), "m"), Q(F(2), "s"), Q(F(3), "s / cm")), (F(6), F(2), F(300)), None),
+            ("=A/B", ("=A", "=B"), (Q(F(6), "m"), Q(F(2), "s")), (F(6), F(2)), {"m": 1, "s": -1})):
         chk.case(("multi-name-reference", repr(ret), repr(args)))
         rec = []
         g = (lambda p1, p2: (rec.append((p1, p2)), 11)[1]) if len(args) == 2 else (lambda p1, p2, p3: (rec.append((p1, p2, p3)), 11)[1])
